@@ -146,6 +146,14 @@ theorem exec_restores_stack (env : Env) :
       exact ih
 
 
+/-- **Decorator form.**  Calling a function decorated with `c` is `with c:` around its body, entered AT
+    CALL TIME on the call-time stack (ContextDecorator: `with self._recreate_cm(): return func()`); the
+    decoration itself does not touch the stack.  (The harness decorates at one stack state and calls at
+    another; the model of the call is `deco c body` at the call site.) -/
+theorem deco_is_with_at_call_time (env : Env) (c : Ctx) (body : Prog) (st : St) :
+    exec env (.deco c body) st = exec env (.withI c body) st := by
+  simp only [exec]
+
 /-! ### every stack ever observed keeps the invariant (prefix / totality) -/
 
 /-- A predicate on stacks that survives every successful `__enter__`. -/
@@ -581,6 +589,15 @@ theorem partial_leaf_falls_through (env : Env) (k : K) (n : String) (t : I) (s s
   rw [hh]
   simp only [handler]
   by_cases hr : env.rules n k = true <;> simp [hr]
+
+/-- Hence inside a decorated function whose decorator is a partial leaf `n`, called while `t` is the
+    active interpretation, a probe the leaf declines is answered exactly as `t` answers it. -/
+theorem deco_partial_falls_through_to_caller (env : Env) (k : K) (n : String) (t : I) (s s' : Stack)
+    (hn : env.named n = some (.disp n)) (ht : top? s = some t)
+    (h : enter env (.named n) s = .ok s') :
+    ∃ p, s' = push p s ∧ handler env k p = if env.rules n k = true then some n else handler env k t := by
+  simp only [enter, ctxObj, hn] at h
+  exact partial_leaf_falls_through env k n t s s' ht h
 
 /-! ### refused entry -/
 
